@@ -30,10 +30,12 @@ RULE = ("classes from the type-directed declaration generator (depth <= 3/4, eac
         "positions; Lean, an independent Python implementation and typedpy are compared on every string), a transplant stream (typed wrappers read from laxer instances as "
         "arguments), a DecimalNumber stream (bare / Array items / Map values; int, float, Decimal, bool, every numeric-string spelling, boundary neighbours in each type, "
         "ill-formed strings, other types; NaN / Infinity / beyond-context values judged on the real code alone) and an oracle-only DateTime / DateField / TimeField stream "
-        "(documented decision from the docstrings; ints and floats of every magnitude, bools)")
+        "(documented decision from the docstrings; ints and floats of every magnitude, bools) and an oracle-only FLOAT multiplesOf stream (steps 0.1, 0.01, 0.3, 2.5, "
+        "0.25 ... on Float / Number / PositiveFloat, bare and nested; documented decision = value / step integral in float arithmetic, computed independently)")
 ASSUMPTIONS = [
     "numeric domain: finite non-bool numbers; ints given to Float fields have |n| < 2^53; multiplesOf is a non-zero int",
     "regex behaviour is an oracle (Python re answers are supplied to the model per case); so are datetime.strptime, json.loads and Decimal(str) (standard library, never typedpy); IPV4 / HostName are decided in Lean",
+    "a FLOAT multiplesOf is outside the Lean model (int steps only): executed on the real code by the extras-floatstep stream",
     "DecimalNumber with multiplesOf: |value| < 10^26 (Decimal % int must stay inside the decimal context)",
     "PYTHONHASHSEED=0 (order of required parameters comes from a set); with several invalid fields the model's set of exception classes is compared",
 ]
@@ -41,7 +43,7 @@ ASSUMPTIONS = [
 
 def cases(rng, tier):
     base = S.gen_cases(rng, tier, 90 if tier == "quick" else 1200) + S.default_cases(random.Random(str(rng.getstate()[1][0])), tier, 150 if tier == "quick" else 2500) + S.crosstype_cases() \
-        + X.directed_ctor_cases() + X.decimal_cases() + X.temporal_cases()
+        + X.directed_ctor_cases() + X.decimal_cases() + X.temporal_cases() + X.floatstep_cases()
     ext = S.gen_cases(random.Random("ext" + str(rng.getstate()[1][0])), tier, 70 if tier == "quick" else 1000, ext=True, prefix="E") + S.xstring_cases() \
         + S.default_cases(random.Random("extd" + str(rng.getstate()[1][0])), tier, 80 if tier == "quick" else 1200, ext=True)
     # arguments that are the library's own typed wrappers, read from a laxly declared field of another instance
@@ -58,7 +60,11 @@ def search_cases(rng, tier):
 
 
 def _x(case):
-    return case.get("suite") in ("extras-ctor", "extras-decimal", "extras-temporal")
+    return case.get("suite") in ("extras-ctor", "extras-decimal", "extras-temporal", "extras-floatstep")
+
+
+def _fs(case):
+    return case.get("suite") == "extras-floatstep"
 
 
 def _tmp(case):
@@ -70,6 +76,8 @@ def _dec(case):
 
 
 def run_impl(case):
+    if _fs(case):
+        return X.run_floatstep(case)
     if _tmp(case):
         return X.run_temporal(case)
     if _dec(case):
@@ -82,6 +90,8 @@ def line(case, impl):
 
 
 def tags(case, impl, model):
+    if _fs(case):
+        return ["stream:extras-floatstep", f"floatstep:{case['kind']}:{impl.get('out', 'skipped')}"]
     if _tmp(case):
         return ["stream:extras-temporal", f"temporal:{case['leaf']}:{impl.get('out', 'skipped')}"]
     if _dec(case):
@@ -96,6 +106,8 @@ def nontrivial(case):
 
 
 def describe(case, impl, model):
+    if _fs(case):
+        return {"floatstep": case, "result": impl}
     if _tmp(case):
         return {"temporal": case, "result": impl}
     if _dec(case):
@@ -104,6 +116,8 @@ def describe(case, impl, model):
 
 
 def judge(case, impl, model):
+    if _fs(case):
+        return None, X.judge_floatstep(case, impl)
     if _tmp(case):
         return None, X.judge_temporal(case, impl)
     if _dec(case):
